@@ -817,6 +817,18 @@ impl Scenario for MigScenario {
                         if before_status.is_terminal() && state.status() != before_status {
                             return self.v(ctx, false, Violation::new("terminal_status_absorbing", format!("{before_status:?} -> {:?} inside advance_migration", state.status())));
                         }
+                        // blocks mined move the lifecycle forward: a submitted transaction (recorded or not) that the
+                        // wallet's scan has seen mined is Mined after a successful drive, whatever reports it carries
+                        if !state.is_terminal() {
+                            ctx.oracle("scanned_mined_transaction_is_promoted");
+                            for t in state.transactions() {
+                                if let Some(h) = w.mined.get(t.txid().as_ref()).filter(|h| **h <= w.scanned) {
+                                    if matches!(t.state(), MigrationTxState::Proved | MigrationTxState::Broadcast { .. }) {
+                                        return self.v(ctx, false, Violation::new("scanned_mined_transaction_is_promoted", format!("after a successful advance_migration at scanned height {} the transaction mined at {h} is still {:?}: {}", w.scanned, t.state(), summarize_tx(t))));
+                                    }
+                                }
+                            }
+                        }
                         if state.is_terminal() && !matches!(step, AdvanceStep::Complete) {
                             return self.v(ctx, false, Violation::new("terminal_migration_step_is_complete", format!("status {:?} but step {:?}", state.status(), step.kind())));
                         }
